@@ -12,6 +12,7 @@ CORPUS = [
     ("int", "(i -32768)"),                                                                 # E5
     ("(seq (r int) (d (of (i 1) (i 2)) (seqof int)))", "(seq (i 5) (of))"),                # DEFAULT of constructed type, empty value
     ("(seq (r int) (d (seq (i 9)) (tag i c 1 (seq (o int)))))", "(seq (i 5) (seq absent))"),
+    ("(seq (d (ch 0 (i 1)) (choice (r int) (r (tag i c 1 int)))))", "(seq (ch 1 (i 1)))"),   # T14 CHOICE equality
 ]
 
 
